@@ -272,7 +272,7 @@ func indexByte(s string, b byte) int {
 func c06(c *ctx) {
 	cases := backtrackCases(c, tierN(c, 240, 5000), 16, true, false)
 	cfgs := []config{{name: "memo", v: vPlain, memo: true}, {name: "nomemo", v: vPlain}}
-	f := &family{c: c, tag: "c06", configs: cfgs, noexec: true}
+	f := &family{c: c, tag: "c06", configs: cfgs, noexec: true, history: []string{"memo"}}
 	f.judge = func(cs *gcase, e entry, it *ref.Interp, refOK bool, refEnd int, res map[string]*corpus.Res) {
 		covAccumulate(c, it)
 		id := report.Hash(cs.text, fmt.Sprint(e.rule), e.input)
